@@ -113,6 +113,10 @@ def cases():
                 "valid": VALID,
                 "cons": _cons(labels, solver in ("qubo", "quso")) if kind in ("PCBO", "PCSO") else st.just([]),
                 "name": st.sampled_from([None, None, "m", 7]),
+                # used only when the model is constant / empty: terms that are added and cancelled again, so the
+                # constant model still *reports* variables (the statement's "constant model" clause does not
+                # depend on bookkeeping)
+                "stale_keys": st.lists(gen.key_strategy(labels, 2, False, min_deg=1), min_size=0, max_size=2),
             }))
     return st.sampled_from(_choices()).flatmap(for_choice)
 
@@ -172,7 +176,18 @@ def _run(spec, rec, qv):
     variables = set()
     for k in terms:
         variables.update(k)
-    if not is_dict and set(M.variables) != variables:
+    stale_const = False
+    if not is_dict and not variables and not cons and spec.get("stale_keys"):
+        for k in spec["stale_keys"]:
+            k = tuple(k)
+            M[k] += 1
+            M[k] -= 1
+        if dict(M) != terms:
+            raise Violation("cancellation_changed_terms", "%r -> %r" % (terms, dict(M)))
+        stale_const = bool(M.variables)
+        if stale_const:
+            classes.add("constant_with_stale_variables")
+    if not is_dict and set(M.variables) != variables and not stale_const:
         rec.add("not_refreshed")
         return
     if solver in ("qubo", "quso") and any(len(k) > 2 for k in terms):
